@@ -454,6 +454,7 @@ class FuncV(Val):
 class ClassV(Val):
     ci: Any = None  # ClassInfo, or None for external
     ext: str = ""  # 'builtin.int', 'builtin.TypeError', 'statistics.NormalDist' ...
+    prov: frozenset = frozenset()  # taint of a class obtained with type(x) / x.__class__ from a tagged value
 
 
 @dataclass(frozen=True)
